@@ -39,8 +39,10 @@ static void run_rc(Ctx& ctx, const Clause& cl)
   });
 }
 
+void grid_register(); void grid_register2();
 int main(int argc, char** argv)
 {
+  grid_register(); grid_register2();
   setvbuf(stdout, nullptr, _IOLBF, 0);
   if (argc < 2) { fprintf(stderr, "usage: fmcheck list|run|replay|merge ...\n"); return 2; }
   std::string cmd = argv[1];
